@@ -3,18 +3,23 @@ import CashewsVerif.Model.SingleFlight
 /- Driver for C07: replays a recorded schedule (bursts of call / body-step / cancel actions) on the
 single-flight model and prints the observable state after each burst.
 
-  case caching=<0|1> ttl=<ticks> callers=<c,c,..> keys=<k,k,..>   -> ok
-  do <item> ...                                              -> en=.. callers=.. keys=.. joined=.. now=..
+  case caching=<0|1> ttl=<ticks> early=<0|1> ettl=<ticks> bg=<0|1> skip=<n> callers=<c,c,..> keys=<k,k,..>   -> ok
+       early: the decorator is `early` with early_ttl = ettl ticks, background = bg; skip: suspension points of a script
+       that a recalculation does not have (`Cfg.recalcSkip`).  The `recalculations` table is there (`guarded := true`).
+  do <item> ...                                              -> en=.. callers=.. keys=.. joined=.. now=.. rec=..
        item:  c<caller>:<key>:<n>:<o>[:a<arg>]                           call (script used if it starts an execution)
                  <o> = r<v> returns v | e<cls>.<p> raises class cls with payload p | k<how> the body ends cancelled
                        (how: ignored)
                  <key> is the rendered cache key; a<arg> = the argument the key template leaves out (`Act.callWith`)
-              x<exec>                                                    the body of <exec> passes a suspension point
+              x<c>                                                       the body of script <c> passes a suspension point -
+                                                                         in execution <c> or in the recalculation it started
+                                                                         (`Act.ofGate`, resolved in the state it is applied to)
               k<caller>                                                  cancel
               t<d>                                                       d ticks of time pass
   callers=  per declared caller  N | W | R<v> | E<cls>.<p> | K (CancelledError of an execution that ended cancelled)
                                  | C (the caller itself was cancelled)
   now=      the model's clock (ticks)
+  rec=      per declared key     the recalculation of the key that is running, or -
   keys=     per declared key     <key>:<executions in flight>:<bodies running>:<bodies started>:<executions created>
 -/
 open CashewsVerif CashewsVerif.Proto CashewsVerif.SingleFlight
@@ -38,18 +43,27 @@ def parseOutcome? (s : String) : Option Outcome :=
   else if s.startsWith "k" then (dropS s 1).toNat?.map fun _ => Outcome.cancelled
   else none
 
-def parseItem? (w : String) : Option Act :=
+/-- an item of a burst: an action, or the name of a parked body (resolved by `Act.ofGate` when it is applied) -/
+inductive Item where
+  | act (a : Act)
+  | gate (c : Nat)
+
+def Item.resolve (s : SfSt) : Item → Act
+  | .act a => a
+  | .gate c => Act.ofGate s c
+
+def parseItem? (w : String) : Option Item :=
   if w.startsWith "c" then
     match (dropS w 1).splitOn ":" with
-    | [c, k, n, o] => do pure (.call (← c.toNat?) (← k.toNat?) (← n.toNat?) (← parseOutcome? o))
+    | [c, k, n, o] => do pure (.act (.call (← c.toNat?) (← k.toNat?) (← n.toNat?) (← parseOutcome? o)))
     | [c, k, n, o, a] =>
       if a.startsWith "a" then do
-        pure (.callWith (← c.toNat?) ⟨← k.toNat?, ← (dropS a 1).toNat?⟩ (← n.toNat?) (← parseOutcome? o))
+        pure (.act (.callWith (← c.toNat?) ⟨← k.toNat?, ← (dropS a 1).toNat?⟩ (← n.toNat?) (← parseOutcome? o)))
       else none
     | _ => none
-  else if w.startsWith "x" then (dropS w 1).toNat?.map Act.bodyStep
-  else if w.startsWith "k" then (dropS w 1).toNat?.map Act.cancel
-  else if w.startsWith "t" then (dropS w 1).toNat?.map Act.tick
+  else if w.startsWith "x" then (dropS w 1).toNat?.map Item.gate
+  else if w.startsWith "k" then (dropS w 1).toNat?.map fun c => Item.act (Act.cancel c)
+  else if w.startsWith "t" then (dropS w 1).toNat?.map fun d => Item.act (Act.tick d)
   else none
 
 def showCaller (s : SfSt) (c : Nat) : String :=
@@ -71,13 +85,19 @@ def execsOfKey (s : SfSt) (key : Nat) : Nat :=
     | some x => x.key == key
     | none => false).length
 
+def showRec (s : SfSt) (k : Nat) : String :=
+  match s.rcreated.find? (recalcRunningB s k) with
+  | some r => toString r
+  | none => "-"
+
 def showKey (s : SfSt) (k : Nat) : String :=
   s!"{k}:{inFlightCount s k}:{bodyRunningCount s k}:{bodyStarts s k}:{execsOfKey s k}"
 
 /-- apply the items one by one, remembering whether each was enabled -/
-def runItems (s : SfSt) : List Act → SfSt × List Bool
+def runItems (s : SfSt) : List Item → SfSt × List Bool
   | [] => (s, [])
-  | a :: r =>
+  | i :: r =>
+    let a := i.resolve s
     let en := enabled s a
     let (s', ens) := runItems (step s a) r
     (s', en :: ens)
@@ -89,10 +109,15 @@ def stepLine (st : St) (line : String) : St × String :=
   match words line with
   | "case" :: ws =>
     match fieldOf "caching=" ws, (fieldOf "ttl=" ws).bind String.toNat?, (fieldOf "callers=" ws).bind parseNats?,
-        (fieldOf "keys=" ws).bind parseNats? with
-    | some b, some ttl, some cs, some ks =>
-      if b = "0" ∨ b = "1" then ({ s := init (b = "1") ttl, callers := cs, keys := ks }, "ok") else (st, "bad-op")
-    | _, _, _, _ => (st, "bad-op")
+        (fieldOf "keys=" ws).bind parseNats?, fieldOf "early=" ws, (fieldOf "ettl=" ws).bind String.toNat?,
+        fieldOf "bg=" ws, (fieldOf "skip=" ws).bind String.toNat? with
+    | some b, some ttl, some cs, some ks, some ea, some ettl, some bg, some skip =>
+      if (b = "0" ∨ b = "1") ∧ (ea = "0" ∨ ea = "1") ∧ (bg = "0" ∨ bg = "1") then
+        ({ s := init { caching := b = "1", ttl := ttl, early := ea = "1", earlyTtl := ettl, background := bg = "1",
+                       guarded := true, recalcSkip := skip },
+           callers := cs, keys := ks }, "ok")
+      else (st, "bad-op")
+    | _, _, _, _, _, _, _, _ => (st, "bad-op")
   | "do" :: ws =>
     match allSome (ws.map parseItem?) with
     | none => (st, "bad-op")
@@ -102,8 +127,8 @@ def stepLine (st : St) (line : String) : St × String :=
       let en := "".intercalate (ens.map fun b => if b then "1" else "0")
       let out := s!"en={en} callers=" ++ ",".intercalate (st.callers.map (showCaller s2))
         ++ " keys=" ++ ";".intercalate (st.keys.map (showKey s2))
-        ++ " joined=" ++ ",".intercalate (st.callers.map (showJoined s2)) ++ s!" now={s2.now}"
+        ++ " joined=" ++ ",".intercalate (st.callers.map (showJoined s2)) ++ s!" now={s2.now} rec=" ++ ",".intercalate (st.keys.map (showRec s2))
       ({ st with s := s2 }, out)
   | _ => (st, "bad-op")
 
-def main : IO Unit := mainLoop stepLine { s := init false 0, callers := [], keys := [] }
+def main : IO Unit := mainLoop stepLine { s := init (Cfg.plain false 0), callers := [], keys := [] }
